@@ -668,6 +668,52 @@ func c10(r *core.Run) {
 			}
 		}
 	})
+	r.Check("D3/K8/drain-visits-every-slot", "the drain handler scans every slot: each slot list it takes from TimingWheel.slots is indexed by an induction variable that runs from 0 in steps of 1 up to, excluding, len(slots) or numSlots (a `range` over the slots or the equivalent counted loop, possibly rotated by a constant offset modulo the bound); a slot left out keeps its tasks, which fire after Drain", func(o *core.O) {
+		if !need(o) || !o.Need(t.handler["drainChannel"] != nil, "handler of drainChannel") {
+			return
+		}
+		f := t.handler["drainChannel"]
+		r.Fn(core.FuncName(f))
+		isBound := func(v ssa.Value) bool {
+			v = core.Forward(v)
+			if core.FieldAddrNameOfLoad(v) == "TimingWheel.numSlots" {
+				return true
+			}
+			if c, ok := v.(*ssa.Call); ok {
+				if b, isB := c.Call.Value.(*ssa.Builtin); isB && b.Name() == "len" && len(c.Call.Args) == 1 {
+					return core.FieldAddrNameOfLoad(core.Forward(c.Call.Args[0])) == "TimingWheel.slots"
+				}
+			}
+			return false
+		}
+		n := 0
+		for _, in := range core.Instrs(f, func(in ssa.Instruction) bool {
+			switch x := in.(type) {
+			case *ssa.IndexAddr:
+				return core.FieldAddrNameOfLoad(core.Forward(x.X)) == "TimingWheel.slots"
+			case *ssa.Index:
+				return core.FieldAddrNameOfLoad(core.Forward(x.X)) == "TimingWheel.slots"
+			}
+			return false
+		}) {
+			n++
+			var idx ssa.Value
+			switch x := in.(type) {
+			case *ssa.IndexAddr:
+				idx = x.Index
+			case *ssa.Index:
+				idx = x.Index
+			}
+			if why := c10FullRange(idx, isBound); why != "" {
+				o.Fail(p.InstrPos(in), "the drain handler takes slots[%s], and %s: the slots left out are never drained and their tasks fire later", core.Describe(idx), why)
+			}
+		}
+		o.Site(n, core.FuncName(f)+": slot accesses")
+		if n == 0 {
+			o.Unres("%s: no indexing of TimingWheel.slots found", core.FuncName(f))
+		}
+	})
+
 	r.Check("D3/K2/drain", "the drain handler hands an entry to the drain function only if !removed, and unlinks every entry it visits", func(o *core.O) {
 		if !need(o) || !o.Need(t.handler["drainChannel"] != nil, "handler of drainChannel") {
 			return
@@ -862,6 +908,44 @@ func c10(r *core.Run) {
 		}
 		return names(v)
 	}
+	r.Check("D4/K7/move-steps-formula", "the move handler re-schedules by the same whole number of ticks as the placement function: with steps = d/I (integer division of the two durations) and ahead = (pos − tickedPos + N − 1) mod N + 1, the values it stores are circle = (steps − ahead)/N and diff = (steps − ahead) mod N", func(o *core.O) {
+		h := t.handler["moveChannel"]
+		if !need(o) || !o.Need(h != nil, "handler of moveChannel") {
+			return
+		}
+		r.Fn(core.FuncName(h))
+		nm := func(v ssa.Value) string {
+			switch core.FieldAddrNameOfLoad(v) {
+			case "positionEntry.pos":
+				return "p"
+			case "baseEntry.delay":
+				return "d"
+			}
+			return names(v)
+		}
+		a := &core.Alg{Name: nm}
+		wantCircle := core.ParsePoly("idiv(idiv(d, I) - mod(p - tp + N - 1, N) - 1, N)")
+		wantDiff := core.ParsePoly("mod(idiv(d, I) - mod(p - tp + N - 1, N) - 1, N)")
+		n := 0
+		for _, st := range core.StoresToField(h, "timingEntry.circle") {
+			n++
+			if got := a.Norm(st.Val); !got.Equal(wantCircle) {
+				o.Fail(p.InstrPos(st), "the move handler stores circle = %s, expected %s (steps = d/I as in the placement function, ahead = ticks until the entry's slot is scanned next)", got, wantCircle)
+			}
+		}
+		m := 0
+		for _, st := range core.StoresToField(h, "timingEntry.diff") {
+			m++
+			if got := a.Norm(st.Val); !got.Equal(wantDiff) {
+				o.Fail(p.InstrPos(st), "the move handler stores diff = %s, expected %s", got, wantDiff)
+			}
+		}
+		o.Site(n+m, core.FuncName(h))
+		if n == 0 || m == 0 {
+			o.Unres("%s: no store to timingEntry.circle/diff found (the stay-in-slot re-scheduling is not recognised)", core.FuncName(h))
+		}
+	})
+
 	r.Check("D4/K7/placement-formula", "the placement function returns pos = (tickedPos + d/I) mod N and circle = (d/I − 1)/N", func(o *core.O) {
 		if !need(o) {
 			return
